@@ -685,7 +685,8 @@ CONSUMERS = {
 }
 # where PatternChar::Normal may be made outside yash-fnmatch, and the tests that must all have failed there
 PRODUCERS = {
-    TO_PATTERN_CHARS + '::{closure#0}': {'is_quoting', 'is_quoted'},
+    # hard-expansion: the result of a tilde expansion is literal in case / trim patterns too (fix ee4ee63)
+    TO_PATTERN_CHARS + '::{closure#0}': {'is_quoting', 'is_quoted', 'hard-expansion'},
     GLOB_CHARS_NEXT: {'is_quoting', 'is_quoted', 'backslash-escaped', 'hard-expansion'},
 }
 DEREFS = ['*::Deref::deref', '*::DerefMut::deref_mut', '*::as_slice', '*::as_mut_slice', '*::AsRef::as_ref', '*::AsMut::as_mut',
@@ -720,6 +721,25 @@ def _base_local(body, du, operand, depth=12):
     return p['l'] if p else None
 
 
+def _canon_local(du, l, depth=12):
+    """The local that `l` is a plain copy / reborrow of (also through the parameter of an inlined helper)."""
+    for _ in range(depth):
+        d = du.single_def(l)
+        if d is None or d[1] == 't':
+            return l
+        rv = d[2].get('rv') or {}
+        if rv.get('k') in ('use', 'cast'):
+            p = Q.operand_place(rv['o'])
+        elif rv.get('k') == 'ref':
+            p = rv['pl']
+        else:
+            return l
+        if p is None or any(e != '*' for e in p.get('p') or []):
+            return l
+        l = p['l']
+    return l
+
+
 def _field_of(pl, adt, names):
     for e in pl.get('p') or []:
         if isinstance(e, dict) and e.get('f') in names and e.get('adt') == adt:
@@ -730,7 +750,7 @@ def _field_of(pl, adt, names):
 def _failed_tests(F, body, du, block):
     """Names of the quoting tests known to have FAILED on every path to block, and the locals they looked at."""
     out = {}
-    for org, lab, e in Q.dominating_conditions(F, body, du, block):
+    for org, lab, e in Q.implied_conditions(F, body, du, block):
         if lab != ('bool', False):
             continue
         if org['k'] == 'place':
@@ -827,10 +847,13 @@ def r4(cx):
         cx.violation(r, 'consumer-missing', '%s no longer compiles a pattern (anchoring/quoting rules for it are vacuous)' % r, loc=None)
     # (b) who makes PatternChar values
     n_norm = 0
-    for body in F.bodies.values():
-        if body.crate == 'yash_fnmatch':
+    for body0 in F.bodies.values():
+        if body0.crate == 'yash_fnmatch':
             continue
         du = None
+        body = body0
+        if Q.find_aggregates(body0, PCHAR, 'Normal'):
+            body = F.inlined(body0)      # `fn is_literal(c) -> bool` and the like are read at the call site
         for b, j, s in Q.find_aggregates(body, PCHAR, 'Normal'):
             n_norm += 1
             du = du or Q.DefUse(body)
@@ -857,6 +880,8 @@ def r4(cx):
             vorg = du.origin(s['rv']['ops'][0])
             vl = vorg['pl']['l'] if vorg['k'] == 'place' and _field_of(vorg['pl'], ATTRCHAR, ('value',)) else None
             flags = {failed.get('is_quoting'), failed.get('is_quoted')} - {None, 'filter'}
+            flags = {_canon_local(du, l_) for l_ in flags}
+            vl = _canon_local(du, vl) if vl is not None else None
             if vl is None or (flags and flags != {vl}):
                 cx.violation(body.fn, 'normal-other-char', 'the character made Normal is not the value of the AttrChar whose flags were tested',
                              loc=body.loc(s))
@@ -867,7 +892,7 @@ def r4(cx):
                              'character becomes PatternChar::Normal regardless of quoting', loc=body.loc(t))
     cx.floor(n_norm, 2, 'PatternChar::Normal construction sites outside yash-fnmatch')
     # (c) apply_escapes: the two flags are set exactly for an unquoted, non-quoting backslash and its successor
-    ab = F.body(APPLY_ESCAPES)
+    ab = F.inlined(F.body(APPLY_ESCAPES))
     cx.fn(APPLY_ESCAPES)
     du = Q.DefUse(ab)
     writes = {}
@@ -883,6 +908,23 @@ def r4(cx):
         return
 
     def idx_name(pl):
+        if not any(isinstance(e, dict) and 'idx' in e for e in pl.get('p') or []):
+            # `(*c).is_quoted` with `c = &chars[i]` handed to a helper: the index is on the reference's definition
+            l = pl['l']
+            for _ in range(8):
+                d = du.single_def(l)
+                if d is None or d[1] == 't':
+                    break
+                rv = d[2].get('rv') or {}
+                q = Q.operand_place(rv['o']) if rv.get('k') in ('use', 'cast') else rv.get('pl') if rv.get('k') == 'ref' else None
+                if q is None:
+                    break
+                if any(isinstance(e, dict) and 'idx' in e for e in q.get('p') or []):
+                    pl = q
+                    break
+                if any(e != '*' for e in q.get('p') or []):
+                    break
+                l = q['l']
         for e in pl.get('p') or []:
             if isinstance(e, dict) and 'idx' in e:
                 l = e['idx']
@@ -903,7 +945,7 @@ def r4(cx):
         names[f] = idx_name(s['lhs'])
         if s['rv'].get('k') != 'use' or s['rv']['o'].get('c') != 'true':
             cx.violation(APPLY_ESCAPES, 'write-value:%s' % f, '%s must be set to true' % f, loc=ab.loc(s))
-        conds = Q.dominating_conditions(F, ab, du, b)
+        conds = Q.implied_conditions(F, ab, du, b)
         have = set()
         for org, lab, e in conds:
             if org['k'] == 'binop' and org['rv']['op'] == 'Eq' and lab == ('bool', True):
